@@ -1,4 +1,4 @@
-// idhelper <file> <create|open> <tag> <clock> <threads:0|1> <history: letters of FBSATRPX>
+// idhelper <file> <create|open> <tag> <clock> <threads:0|1, 2 = digit-grouping global locale> <history: letters of FBSATRPX>
 // idhelper <file> <forkcold|forkwarm> <tag> <clock> <same_file:0|1> <historyA,historyB[,historyC]>
 //   worker pool: this process (library loaded) forks one worker per history WITHOUT exec, one after the other; "forkwarm":
 //   the parent has itself created a file (ids) before forking, "forkcold": it has not called the library at all.
@@ -8,6 +8,7 @@
 #include <nix.hpp>
 #include <hdf5.h>
 #include <cstdio>
+#include <locale>
 #include <cstring>
 #include <cstdlib>
 #include <thread>
@@ -46,7 +47,12 @@ int main(int argc, char **argv) {
     H5Eset_auto2(H5E_DEFAULT, nullptr, nullptr);
     g_clock = atol(argv[4]);
     vf::set_clock(g_clock);
-    bool threads = atoi(argv[5]) != 0;
+    bool threads = atoi(argv[5]) == 1;
+    if (atoi(argv[5]) == 2) {
+        // the application has installed a global locale that groups digits (en_US style): ids are text, not numbers
+        struct Grouping : std::numpunct<char> { char do_thousands_sep() const override { return ','; } std::string do_grouping() const override { return "\3"; } char do_decimal_point() const override { return '.'; } };
+        std::locale::global(std::locale(std::locale::classic(), new Grouping));
+    }
     std::string tag = argv[3], hist = argv[6];
     if (strncmp(argv[2], "fork", 4) == 0) {
         bool warm = strcmp(argv[2], "forkwarm") == 0, same = atoi(argv[5]) != 0;
